@@ -9,7 +9,7 @@ Definition newid (s : state) (e : event) : list Z := if takes_id e then [nsend s
 Definition newrec (s : state) (e : event) : list send :=
   match e with
   | ESend t ch cnt b =>
-      if (cnt <? 1) || (b <? 0) then []
+      if (cnt <? 1) || (b <? 0) || stopping s then []      (* bad arguments, or refused: the producer is stopping *)
       else [{| s_id := nsend s; s_topic := t; s_choice := ch; s_cnt := cnt; s_bytes := b |}]
   | _ => []
   end.
